@@ -100,3 +100,233 @@ Lemma cellv_upd_other h c c' v : c <> c' -> cellv (upd h c v) c' = cellv h c'.
 Proof.
   unfold cellv. revert c c'. induction h as [|a h IH]; intros [|c] [|c'] H; simpl; auto; try congruence.
 Qed.
+
+(* ================= well-formed heaps and rows ================= *)
+Definition hwf (n : nat) (h : list vec) : Prop :=
+  forall c, (c < length h)%nat -> length (cellv h c) = n.
+Definition rwf (h : list vec) (r : rmap) : Prop :=
+  (forall p c, r p = Some c -> (c < length h)%nat) /\
+  (forall p q c, r p = Some c -> r q = Some c -> p = q).
+(* dense value of row p, 0 when the row does not exist *)
+Definition rowv (h : list vec) (r : rmap) (p : phase) (j : nat) : Q :=
+  match r p with Some c => nthq (cellv h c) j | None => 0 end.
+(* material of phase p is placed in row q of the rows r *)
+Definition lands (t : pset) (p q : phase) : bool :=
+  match resolve t p with Some q' => phase_eqb q q' | None => false end.
+
+Lemma hwf_app n h v : hwf n h -> length v = n -> hwf n (h ++ [v]).
+Proof.
+  intros H Hv c Hc. rewrite app_length in Hc. simpl in Hc.
+  destruct (Nat.eq_dec c (length h)) as [->|Hne].
+  - rewrite cellv_app_new. exact Hv.
+  - rewrite cellv_app_l by lia. apply H. lia.
+Qed.
+Lemma hwf_upd n h c v : hwf n h -> length v = n -> hwf n (upd h c v).
+Proof.
+  intros H Hv c' Hc'. rewrite upd_length in Hc'.
+  destruct (Nat.eq_dec c c') as [->|Hne].
+  - rewrite cellv_upd_same by exact Hc'. exact Hv.
+  - rewrite cellv_upd_other by exact Hne. apply H. exact Hc'.
+Qed.
+Lemma rwf_len h h' r : rwf h r -> (length h <= length h')%nat -> rwf h' r.
+Proof. intros [A B] L. split; [|exact B]. intros p c H. specialize (A p c H). lia. Qed.
+
+Lemma nth_repeat_in {A} (z d : A) k c : (c < k)%nat -> nth c (repeat z k) d = z.
+Proof. revert c. induction k as [|k IH]; intros [|c] H; simpl; try lia; auto. apply IH. lia. Qed.
+
+Lemma pset_list_in t p : In p (pset_list t) <-> t p = true.
+Proof.
+  unfold pset_list. rewrite filter_In. split; [intros [_ H]; exact H|].
+  intros H. split; [apply all_phases_in|exact H].
+Qed.
+Lemma pset_list_nodup t : NoDup (pset_list t).
+Proof. apply NoDup_filter. apply all_phases_nodup. Qed.
+
+Lemma blank_rows_spec n ps : forall h r h1 r1,
+  NoDup ps -> blank_rows n ps h r = (h1, r1) ->
+  h1 = h ++ repeat (vzero n) (length ps) /\
+  (forall p, ~ In p ps -> r1 p = r p) /\
+  (forall p, In p ps -> exists c, r1 p = Some c /\ (length h <= c < length h1)%nat) /\
+  (forall p q c, In p ps -> In q ps -> r1 p = Some c -> r1 q = Some c -> p = q).
+Proof.
+  induction ps as [|a ps IH]; intros h r h1 r1 ND H; simpl in H.
+  - inversion H; subst. simpl. rewrite app_nil_r. repeat split; auto; intros; contradiction.
+  - inversion ND as [|? ? Hna ND']; subst.
+    destruct (IH _ _ _ _ ND' H) as (E & Hout & Hin & Hinj).
+    assert (Ea : r1 a = Some (length h)).
+    { rewrite (Hout a Hna). rewrite phase_eqb_refl. reflexivity. }
+    assert (Lh1 : length h1 = (length h + S (length ps))%nat).
+    { rewrite E. rewrite !app_length, repeat_length. simpl. lia. }
+    split; [|split; [|split]].
+    + rewrite E. rewrite <- app_assoc. reflexivity.
+    + intros p Hp. rewrite Hout by (intros Hp'; apply Hp; right; exact Hp').
+      assert (Hne : p <> a) by (intros ->; apply Hp; left; reflexivity).
+      apply phase_eqb_neq in Hne. rewrite Hne. reflexivity.
+    + intros p [->|Hp].
+      * exists (length h). split; [exact Ea|]. lia.
+      * destruct (Hin p Hp) as (c & Hc & Hr). exists c. split; [exact Hc|].
+        rewrite app_length in Hr. simpl in Hr. lia.
+    + intros p q c [->|Hp] [->|Hq] Hpc Hqc; auto.
+      * destruct (Hin q Hq) as (c' & Hc' & Hr). rewrite app_length in Hr. simpl in Hr.
+        rewrite Ea in Hpc. rewrite Hc' in Hqc. inversion Hpc; inversion Hqc; subst. lia.
+      * destruct (Hin p Hp) as (c' & Hc' & Hr). rewrite app_length in Hr. simpl in Hr.
+        rewrite Ea in Hqc. rewrite Hc' in Hpc. inversion Hpc; inversion Hqc; subst. lia.
+      * eapply Hinj; eauto.
+Qed.
+
+Lemma blank_spec n t h h1 r :
+  blank n t h = (h1, r) ->
+  h1 = h ++ repeat (vzero n) (pset_card t) /\
+  (forall p, rset r p = t p) /\
+  (forall p c, r p = Some c -> (length h <= c < length h1)%nat) /\
+  (forall p q c, r p = Some c -> r q = Some c -> p = q).
+Proof.
+  unfold blank. intros H.
+  destruct (blank_rows_spec n (pset_list t) h (fun _ => None) h1 r (pset_list_nodup t) H)
+    as (E & Hout & Hin & Hinj).
+  assert (Hdom : forall p c, r p = Some c -> In p (pset_list t)).
+  { intros p c Hc. destruct (in_dec phase_eq_dec p (pset_list t)) as [Hi|Hn]; auto.
+    rewrite (Hout p Hn) in Hc. discriminate. }
+  split; [exact E|]. split; [|split].
+  - intros p. unfold rset. destruct (t p) eqn:Tp.
+    + apply pset_list_in in Tp. destruct (Hin p Tp) as (c & Hc & _). rewrite Hc. reflexivity.
+    + destruct (r p) eqn:Rp; auto. apply Hdom in Rp. apply pset_list_in in Rp. congruence.
+  - intros p c Hc. destruct (Hin p (Hdom p c Hc)) as (c' & Hc' & Hr). congruence.
+  - intros p q c Hp Hq. eapply Hinj; eauto.
+Qed.
+
+Lemma blank_cells n t h h1 r :
+  blank n t h = (h1, r) ->
+  (forall c, (c < length h)%nat -> cellv h1 c = cellv h c) /\
+  (forall c, (length h <= c < length h1)%nat -> cellv h1 c = vzero n) /\
+  (length h <= length h1)%nat.
+Proof.
+  intros H. destruct (blank_spec n t h h1 r H) as (E & _). subst h1. repeat split.
+  - intros c Hc. unfold cellv. apply app_nth1. exact Hc.
+  - intros c Hc. rewrite app_length, repeat_length in Hc. unfold cellv.
+    rewrite app_nth2 by lia. apply nth_repeat_in. lia.
+  - rewrite app_length. lia.
+Qed.
+
+Lemma blank_hwf n t h h1 r : blank n t h = (h1, r) -> hwf n h -> hwf n h1.
+Proof.
+  intros H Hh c Hc. destruct (blank_cells n t h h1 r H) as (A & B & _).
+  destruct (Nat.lt_ge_cases c (length h)) as [L|L].
+  - rewrite A by exact L. apply Hh. exact L.
+  - rewrite B by lia. apply vzero_length.
+Qed.
+
+(* ================= conversions between row sets ================= *)
+Lemma rlookup_some r p c :
+  rlookup r p = Some c -> exists q, resolve (rset r) p = Some q /\ r q = Some c.
+Proof. unfold rlookup. destruct (resolve (rset r) p) as [q|]; intros H; [exists q; auto|discriminate]. Qed.
+Lemma resolve_in t p q : resolve t p = Some q -> t q = true.
+Proof.
+  unfold resolve. destruct (t p) eqn:Tp; [intros H; inversion H; subst; exact Tp|].
+  destruct (swapc p) as [p'|]; [|discriminate]. destruct (t p') eqn:Tp'; [|discriminate].
+  intros H; inversion H; subst; exact Tp'.
+Qed.
+Lemma rlookup_none_resolve r p : rlookup r p = None -> resolve (rset r) p = None.
+Proof.
+  unfold rlookup. destruct (resolve (rset r) p) as [q|] eqn:E; auto.
+  apply resolve_in in E. unfold rset in E. destruct (r q); [discriminate|discriminate].
+Qed.
+
+Lemma rowv_upd_add n h r q c v q' j :
+  hwf n h -> rwf h r -> length v = n -> r q = Some c ->
+  rowv (upd h c (vadd (cellv h c) v)) r q' j ==
+  rowv h r q' j + (if phase_eqb q' q then nthq v j else 0).
+Proof.
+  intros Hh [Hr Hinj] Hv Hq. unfold rowv.
+  destruct (phase_eqb q' q) eqn:E.
+  - apply phase_eqb_eq in E. subst q'. rewrite Hq.
+    rewrite cellv_upd_same by (eapply Hr; eauto).
+    apply nthq_vadd. rewrite Hv. apply Hh. eapply Hr; eauto.
+  - apply phase_eqb_neq in E. destruct (r q') as [c'|] eqn:Rq'; [|lra].
+    rewrite cellv_upd_other; [lra|]. intros ->. apply E. eapply Hinj; eauto.
+Qed.
+
+Lemma move_rows_spec n L0 r0 r : forall ps h h2,
+  hwf n h -> rwf h r -> (forall p c, r p = Some c -> (L0 <= c)%nat) ->
+  (forall p c, r0 p = Some c -> (c < L0)%nat /\ (c < length h)%nat) ->
+  move_rows ps r0 h r = Ok h2 ->
+  length h2 = length h /\ hwf n h2 /\
+  (forall c, (c < L0)%nat -> cellv h2 c = cellv h c) /\
+  (forall q j, rowv h2 r q j ==
+     rowv h r q j + psum ps (fun p => if lands (rset r) p q then rowv h r0 p j else 0)) /\
+  (forall p, In p ps -> resolve (rset r) p = None -> forall j, rowv h r0 p j == 0).
+Proof.
+  induction ps as [|a ps IH]; intros h h2 Hh Hr Hnew Hold H; simpl in H.
+  - inversion H; subst. repeat split; auto.
+    + intros. simpl. lra.
+    + intros p [].
+  - assert (Skip : move_rows ps r0 h r = Ok h2 -> (forall j, rowv h r0 a j == 0) ->
+        length h2 = length h /\ hwf n h2 /\
+        (forall c, (c < L0)%nat -> cellv h2 c = cellv h c) /\
+        (forall q j, rowv h2 r q j ==
+           rowv h r q j + psum (a :: ps) (fun p => if lands (rset r) p q then rowv h r0 p j else 0)) /\
+        (forall p, In p (a :: ps) -> resolve (rset r) p = None -> forall j, rowv h r0 p j == 0)).
+    { intros H' Hz. destruct (IH h h2 Hh Hr Hnew Hold H') as (A & B & C & D & E).
+      repeat split; auto.
+      - intros q j. rewrite D. simpl. pose proof (Hz j) as Hzj. destruct (lands (rset r) a q); lra.
+      - intros p [->|Hp] Hn j; [apply Hz|apply E; auto]. }
+    destruct (r0 a) as [c|] eqn:Ra.
+    + destruct (any_nz (cellv h c)) eqn:NZ.
+      * unfold add_into in H. destruct (rlookup r a) as [c'|] eqn:Lk; [|discriminate].
+        simpl in H. destruct (rlookup_some r a c' Lk) as (q & Rq & Rc).
+        destruct (Hold a c Ra) as [HcL Hclen].
+        assert (Hv : length (cellv h c) = n) by (apply Hh; exact Hclen).
+        assert (Hc'len : (c' < length h)%nat) by (destruct Hr as [Hr _]; eapply Hr; eauto).
+        set (h' := upd h c' (vadd (cellv h c') (cellv h c))) in *.
+        assert (Hh' : hwf n h').
+        { apply hwf_upd; auto. rewrite vadd_length; [apply Hh; exact Hc'len|].
+          rewrite Hv. apply Hh. exact Hc'len. }
+        assert (Hr' : rwf h' r) by (apply (rwf_len h); auto; unfold h'; rewrite upd_length; lia).
+        assert (Hold' : forall p c0, r0 p = Some c0 -> (c0 < L0)%nat /\ (c0 < length h')%nat).
+        { intros p c0 Hp. unfold h'. rewrite upd_length. exact (Hold p c0 Hp). }
+        assert (Hne : forall c0, (c0 < L0)%nat -> cellv h' c0 = cellv h c0).
+        { intros c0 Hc0. unfold h'. apply cellv_upd_other. specialize (Hnew q c' Rc). lia. }
+        assert (Hrow0 : forall p j, rowv h' r0 p j = rowv h r0 p j).
+        { intros p j. unfold rowv. destruct (r0 p) as [c0|] eqn:Rp; auto.
+          rewrite Hne; auto. apply (Hold p c0 Rp). }
+        destruct (IH h' h2 Hh' Hr' Hnew Hold' H) as (A & B & C & D & E).
+        split; [rewrite A; unfold h'; apply upd_length|]. split; [exact B|]. split; [|split].
+        -- intros c0 Hc0. rewrite C by exact Hc0. apply Hne. exact Hc0.
+        -- intros q0 j. rewrite D. unfold h' at 1.
+           rewrite (rowv_upd_add n h r q c' (cellv h c) q0 j Hh Hr Hv Rc).
+           simpl. unfold lands at 2. rewrite Rq.
+           assert (Ex : psum ps (fun p => if lands (rset r) p q0 then rowv h' r0 p j else 0) ==
+                        psum ps (fun p => if lands (rset r) p q0 then rowv h r0 p j else 0)).
+           { apply psum_ext. intros p _. rewrite Hrow0. reflexivity. }
+           rewrite Ex. Show. admit.
+        -- intros p [->|Hp] Hn j.
+           ++ congruence.
+           ++ rewrite <- Hrow0. apply E; auto.
+      * apply Skip; auto. intros j. unfold rowv. rewrite Ra. apply any_nz_false. exact NZ.
+    + apply Skip; auto. intros j. unfold rowv. rewrite Ra. reflexivity.
+Qed.
+
+Lemma sum_rows_gen n h r : forall ps acc,
+  hwf n h -> (forall p c, r p = Some c -> (c < length h)%nat) -> length acc = n ->
+  let res := fold_left (fun acc p => match r p with Some c => vadd acc (cellv h c) | None => acc end) ps acc in
+  length res = n /\ forall j, nthq res j == nthq acc j + psum ps (fun p => rowv h r p j).
+Proof.
+  induction ps as [|a ps IH]; intros acc Hh Hr Ha; simpl.
+  - split; auto. intros; lra.
+  - destruct (r a) as [c|] eqn:Ra.
+    + assert (Hc : length (cellv h c) = n) by (apply Hh; eapply Hr; eauto).
+      assert (Hl : length (vadd acc (cellv h c)) = n) by (rewrite vadd_length; congruence).
+      destruct (IH (vadd acc (cellv h c)) Hh Hr Hl) as [A B]. split; [exact A|].
+      intros j. rewrite B. rewrite nthq_vadd by congruence. unfold rowv at 2. rewrite Ra. lra.
+    + destruct (IH acc Hh Hr Ha) as [A B]. split; [exact A|].
+      intros j. rewrite B. unfold rowv at 2. rewrite Ra. lra.
+Qed.
+
+Lemma sum_rows_spec n h r :
+  hwf n h -> (forall p c, r p = Some c -> (c < length h)%nat) ->
+  length (sum_rows n h r) = n /\
+  forall j, nthq (sum_rows n h r) j == psum all_phases (fun p => rowv h r p j).
+Proof.
+  intros Hh Hr. destruct (sum_rows_gen n h r all_phases (vzero n) Hh Hr (vzero_length n)) as [A B].
+  split; [exact A|]. intros j. unfold sum_rows. rewrite B. rewrite nthq_vzero. lra.
+Qed.
